@@ -12,6 +12,13 @@ func Clip(
 	switch obj := obj.(type) {
 	case *geojson.Point:
 		return clipPoint(obj, clipper, opts)
+	case *geojson.SimplePoint:
+		// (the form a stored 2D point has, e.g. as the area of GET key id)
+		return clipPoint(geojson.NewPoint(obj.Point), clipper, opts)
+	case *geojson.Circle:
+		// clipped as the polygon it is drawn as; it used to come back whole,
+		// so that CLIPBY had no effect on a CIRCLE area
+		return Clip(obj.Polygon(), clipper, opts)
 	case *geojson.Rect:
 		return clipRect(obj, clipper, opts)
 	case *geojson.LineString:
